@@ -9,9 +9,44 @@ ASSUMPTIONS = ["minute frequency / next_bar matching not in the stream (daily im
                "TickSizeSlippage does not clamp to the band (F20); LimitPriceSlippage crashes on opening orders (F22); an auction order can be re-matched at the close (F18)"]
 
 
+def user_limit_monitor(ctx, tr, ix):
+    """the limit the CALLER gave is the limit the order carries and the bound on every fill of it (order_target_portfolio hands
+    one limit per instrument and direction)"""
+    rp = monitors.replay_of(tr)
+    slip = tr.cfg["sim"].get("slippage")
+    for c in tr.calls:
+        if c["api"] != "order_target_portfolio" or c["exc"] is not None:
+            continue
+        targets, limits = c["args"]
+        for o in c["orders"]:
+            if o["book"] not in limits:
+                continue
+            want = limits[o["book"]][0 if o["side"] == "BUY" else 1]
+            ctx.stats["user_limits_checked"] += 1
+            if o["type"] != "LIMIT" or o["price"] != want:
+                ctx.witness("C05.3", {"kind": "order_does_not_carry_callers_limit", "api": c["api"]},
+                            "order_target_portfolio(%r, limits %r) at %s: the %s order for %s is %s at %r, the caller's limit is %r"
+                            % (targets, limits, c["when"], o["side"], o["book"], o["type"], o["price"], want), rp)
+    by_order = {}
+    for c in tr.calls:
+        if c["api"] == "order_target_portfolio" and c["exc"] is None:
+            for o in c["orders"]:
+                if o["book"] in c["args"][1]:
+                    by_order[o["id"]] = (c["args"][1][o["book"]][0 if o["side"] == "BUY" else 1], c)
+    for kind, e in tr.events:
+        if kind == "TRADE" and e["order"] is not None and e["order"]["id"] in by_order and not slip:
+            want, c = by_order[e["order"]["id"]]
+            t = e["trade"]
+            if (t["side"] == "BUY" and t["price"] > want + 1e-12) or (t["side"] == "SELL" and t["price"] < want - 1e-12):
+                ctx.witness("C05.3", {"kind": "fill_worse_than_callers_limit", "api": c["api"]},
+                            "order_target_portfolio(%r, limits %r) at %s: %s %s filled at %r, worse than the caller's limit %r (no slippage configured)"
+                            % (c["args"][0], c["args"][1], c["when"], t["book"], t["side"], t["price"], want), rp)
+
+
 def run(ctx):
     corr = ctx.corr("DefaultBarMatcher.match", "outcome (rest/reject/cancel/fill quantity, price, close-today part, remainder cancel) of every real matcher call vs model `matchOrder` fed with bundle-derived market inputs, bit-exact prices")
-    tstream.stream(ctx, ctx.n(60, 3000), None, [monitors.c0506_monitor("C05")], extra_sync=lambda c, tr, ix: match_sync.run_sync(c, corr, tr, ix))
+    tstream.stream(ctx, ctx.n(60, 3000), None, [monitors.c0506_monitor("C05"), user_limit_monitor], extra_sync=lambda c, tr, ix: match_sync.run_sync(c, corr, tr, ix),
+                   cfg_opts=lambda k: {"otp": True})
 
 
 def replay(ctx, data):
